@@ -522,6 +522,99 @@ func c16PoolDiscipline(c *Ctx) {
 			}
 			r.Check("R16.6", FuncName(fn), fmt.Sprintf("sync.Pool.Put #%d: the pooled object is not also handed to the caller", n), in.Pos(), bad == "",
 				"the return at "+bad+" hands out memory that was (or, by defer, will at once be) put back into the pool: a concurrent render can take and overwrite it")
+			// a pooled buffer carries nothing from one user to the next: it is emptied before first use, or on every
+			// path on which it goes back
+			hasReset := false
+			if pt, isP := pooled.Type().(*types.Pointer); isP {
+				if nm := namedOf(pt.Elem()); nm != nil {
+					for i := 0; i < nm.NumMethods(); i++ {
+						if nm.Method(i).Name() == "Reset" {
+							hasReset = true
+						}
+					}
+				}
+			}
+			if hasReset {
+				var resets, uses []ssa.Instruction
+				eachInstr(fn, func(x ssa.Instruction) {
+					cc2 := callCommon(x)
+					if cc2 == nil || x == in {
+						return
+					}
+					touches := false
+					for _, a := range cc2.Args {
+						if shared[unwrap(a, true)] {
+							touches = true
+						}
+					}
+					if !touches {
+						return
+					}
+					f2 := cc2.StaticCallee()
+					isReset := f2 != nil && f2.Name() == "Reset"
+					if f2 != nil && f2.Name() == "Truncate" && len(cc2.Args) == 2 {
+						if k, ok := constInt(cc2.Args[1]); ok && k == 0 {
+							isReset = true
+						}
+					}
+					if isReset {
+						resets = append(resets, x)
+					} else if f2 == nil || f2.Name() != "Put" || funcPkgPath(f2) != "sync" {
+						uses = append(uses, x)
+					}
+				})
+				_, deferred := in.(*ssa.Defer)
+				okA := false // emptied before any use
+				for _, rs := range resets {
+					all := true
+					for _, u := range uses {
+						if !instrDominates(rs, u) {
+							all = false
+						}
+					}
+					if all {
+						okA = true
+					}
+				}
+				okB := true // emptied on every way back
+				var ends []ssa.Instruction
+				if deferred {
+					for _, ret := range returnsOf(fn) {
+						ends = append(ends, ret)
+					}
+					eachInstr(fn, func(x ssa.Instruction) {
+						if pn, isP := x.(*ssa.Panic); isP {
+							ends = append(ends, pn)
+						}
+					})
+				} else {
+					ends = []ssa.Instruction{in}
+				}
+				for _, e := range ends {
+					dom := false
+					for _, rs := range resets {
+						if instrDominates(rs, e) {
+							// and nothing writes to it again between the reset and the way out
+							clean := true
+							for _, u := range uses {
+								if instrDominates(rs, u) && instrDominates(u, e) {
+									if f3 := callCommon(u).StaticCallee(); f3 == nil || !(f3.Name() == "String" || f3.Name() == "Len" || f3.Name() == "Bytes" || f3.Name() == "Cap") {
+										clean = false
+									}
+								}
+							}
+							if clean {
+								dom = true
+							}
+						}
+					}
+					if !dom {
+						okB = false
+					}
+				}
+				r.Check("R16.6", FuncName(fn), fmt.Sprintf("sync.Pool.Put #%d: the pooled buffer is empty when the next user gets it", n), in.Pos(), okA || okB,
+					"on some path (an early error return, say) the buffer goes back with what this render wrote into it, and it is not emptied when taken out: an unrelated render starts with those bytes")
+			}
 		})
 	}
 	if n == 0 {
